@@ -334,13 +334,15 @@ class Evaluator:
         if k in self._d:
             return self._d[k]
         if is_composite(op):
-            depth1, leaves, _ = composite_nodes(op)
+            depth1, leaves, allnodes = composite_nodes(op)
             if not depth1:
                 v = 0.0
             else:
-                rel = min(self.start(n.operation) for n in depth1)
+                # C04 (statement, and the library since the "fix: a composite's duration spans all contained operations"
+                # commit): earliest start to latest end over EVERY node of the block
+                rel = min(self.start(n.operation) for n in allnodes)
                 v = 0.0
-                for n in leaves:
+                for n in allnodes:
                     delta = self.end(n.operation) - rel
                     if delta > v:
                         v = delta
